@@ -6,11 +6,24 @@ import shim
 from streams import Result
 
 
-def run_real(k0_ms, events, horizon_ms, tie_timeout_first):
+def stream_lines(writes):
+    """the byte stream as the peer sees it: complete CRLF lines, each stamped with the time of the write that completed it;
+    returns (lines, trailing incomplete bytes).  How the stream is cut into writes is not observable by the peer."""
+    lines, buf = [], ""
+    for t, b in writes:
+        buf += b
+        while "\r\n" in buf:
+            l, buf = buf.split("\r\n", 1)
+            lines.append((t, l + "\r\n"))
+    return lines, buf
+
+
+def run_real(k0_ms, events, horizon_ms, tie_timeout_first, send_limit=65536):
     """events: list of (t_ms, ('p', msg) | ('pill', k_ms) | ('k', k_ms) | ('stop',)). Returns [(t_ms, line)]."""
     import lightstreamer_adapter.server as S
     sched = shim.Sched(lambda names, ops: names[0])
     sock = shim.Socket()
+    sock.send_limit = send_limit
     saved = shim.install(sched, sock)
     try:
         class Srv:
@@ -99,9 +112,9 @@ def model_op(tie, k0, events, horizon):
     return "sender %s %d %d %s" % ("t" if tie else "f", k0, horizon, " ".join(toks))
 
 
-def oracle(res, k0, events, horizon, out, tie):
+def oracle(res, k0, events, horizon, out, tie, limit=65536):
     """C13 on the real output: spacing, full silence, disabled, transparency."""
-    inp = {"k0_ms": k0, "events": events, "horizon_ms": horizon, "tie_timeout_first": tie}
+    inp = {"k0_ms": k0, "events": events, "horizon_ms": horizon, "tie_timeout_first": tie, "send_limit": limit}
     puts = [a[1] for t, a in events if a[0] == "p"]
     stop_at = next((t for t, a in events if a[0] == "stop"), None)
     if stop_at is not None:
@@ -159,7 +172,14 @@ def stream(tier):
     for i in range(n):
         k0, events, horizon = gen_history(R)
         tie = bool(i % 2)
-        out, srv, errors = run_real(k0, events, horizon, tie)
+        # some peers read slowly: a single send() then accepts only a few bytes (sendall is unaffected)
+        limit = R.choice([65536, 65536, 4, 7, 1])
+        writes, srv, errors = run_real(k0, events, horizon, tie, limit)
+        out, rest = stream_lines(writes)
+        res.distribution["send_limit_%d" % limit] += 1
+        if rest:
+            res.violation("sender:partial-line", "the bytes written end in an incomplete line %r (a send() accepting %d bytes at a time)" % (rest[:40], limit),
+                          {"k0_ms": k0, "events": events, "horizon_ms": horizon, "send_limit": limit})
         ops.append(model_op(tie, k0, events, horizon))
         impl.append("ok " + " ".join("%d:%s" % (t, C.hx(l[:-2] if l.endswith("\r\n") else l + "<noCRLF>")) for t, l in out))
         res.traces += 1
@@ -170,7 +190,7 @@ def stream(tier):
             res.nontrivial.add((k0, tuple(events), horizon, tie))
         if errors or srv.exc or srv.io:
             res.violation("sender:thread-died", "writer thread failed: %r %r %r" % (errors, srv.exc, srv.io), {"k0": k0, "events": events})
-        oracle(res, k0, events, horizon, out, tie)
+        oracle(res, k0, events, horizon, out, tie, limit)
         if i < 3:
             res.sample({"k0_ms": k0, "events": events, "horizon_ms": horizon, "written": out[:10]})
     model = C.run_driver(ops)
